@@ -424,6 +424,11 @@ func (s *streamGRPC) RecvMsg(m interface{}) error {
 	}
 	b = b[:size]
 	if _, err := io.ReadFull(s.r, b); err != nil {
+		if err == io.EOF {
+			// The body ended right after the prefix of a message that
+			// announced a payload: not a clean end of stream.
+			err = io.ErrUnexpectedEOF
+		}
 		return err
 	}
 
